@@ -70,7 +70,7 @@ pub fn tier_for(prop: &str, tier: &str) -> Tier {
         ("C07", false) | ("C08", false) | ("C11", false) => (400_000, 480),
         ("C13", true) => (12_000, 45),
         ("C13", false) => (1_000_000, 600),
-        ("C15", true) => (3_000, 45),
+        ("C15", true) => (2_500, 45),
         ("C15", false) => (200_000, 600),
         ("C16", true) => (8_000, 40),
         ("C16", false) => (2_000_000, 600),
